@@ -2,7 +2,7 @@
 
     Statements only; proofs in [Farm/Rewards.v] (on top of the invariant of [Farm/Proofs.v]).
     [reachable s] as in C05: any history from any genesis with an empty farm account. *)
-From Irismod Require Import Farm.Model Farm.Check Farm.Proofs Farm.Rewards Farm.Refund Farm.Budget.
+From Irismod Require Import Farm.Model Farm.Check Farm.Proofs Farm.Rewards Farm.Refund Farm.Budget Farm.Sound Farm.History Farm.Sound6.
 
 (** RELEASE.  Every successful updatePool (each of stake, unstake, harvest, adjust, destroy and the
     end blocker goes through it), at any height, on any pool and ledger: the reward released for a
@@ -139,6 +139,93 @@ Theorem budget_identity_step :
                       /\ (st = NextBlock /\ p_end p = height s \/ exists who, st = Msg (Destroy who pid) /\ who = p_creator p)).
 Proof. intros s st pid p R. exact (budget_step_lemma s st pid p (reachable_inv _ R)). Qed.
 Print Assumptions budget_identity_step.
+
+(** BUDGET IDENTITY over whole histories, with the ghost "released so far".  [released_so_far] adds up, step by
+    step, per-block * (blocks since the last distribution while staked) ([Check.released], the checker's own
+    function, applied to the pool before and after the step); [refunded_so_far] adds up what remains at a refund
+    event ([Check.refund_event]).  Neither looks at the remaining budget after the step, so the identity is not
+    true by construction.  For every pool and denomination, over ANY history from a reachable state: *)
+Theorem budget_identity :
+  forall (steps : list step) (s : state) (pid : Z) (d : denom),
+    reachable s -> Forall valid_step steps ->
+    funded (pools (run s steps)) pid d
+    = remaining (pools (run s steps)) pid d
+      + (funded (pools s) pid d - remaining (pools s) pid d)
+      + released_so_far s steps pid d + refunded_so_far s steps pid d.
+Proof. intros steps s pid d R. exact (budget_identity_lemma steps s pid d (reachable_inv _ R)). Qed.
+Print Assumptions budget_identity.
+
+(** ... in particular from genesis: total funded = remaining + released + refunded, always. *)
+Corollary budget_identity_from_genesis :
+  forall (b : ledger) (h : Z) (steps : list step) (pid : Z) (d : denom),
+    genesis_ok b h -> Forall valid_step steps ->
+    funded (pools (run (init b h) steps)) pid d
+    = remaining (pools (run (init b h) steps)) pid d
+      + released_so_far (init b h) steps pid d + refunded_so_far (init b h) steps pid d.
+Proof.
+  intros b h steps pid d G Hv. rewrite (budget_identity_lemma steps (init b h) pid d (inv_init b h G) Hv).
+  unfold funded, remaining. simpl. lia.
+Qed.
+Print Assumptions budget_identity_from_genesis.
+
+(** REFUND over whole histories.  [refund_count] counts the steps of a history that are a refund event for the pool
+    (the end blocker with the pool's entry due, or a successful DestroyPool).  Never both, never twice: *)
+Theorem refund_never_twice :
+  forall (steps : list step) (s : state) (pid : Z),
+    reachable s -> Forall valid_step steps -> 0 <= refund_count s steps pid <= 1.
+Proof. intros steps s pid R. exact (refund_at_most_once steps s pid (reachable_inv _ R)). Qed.
+Print Assumptions refund_never_twice.
+
+(** ... and exactly one: a queued pool (every pool is queued when created) either is still queued and has had no
+    refund event, or has left the queue and has had exactly one. *)
+Theorem refund_exactly_once_over_histories :
+  forall (steps : list step) (s : state) (pid : Z),
+    reachable s -> Forall valid_step steps -> queued s pid ->
+    (refund_count s steps pid = 0 /\ queued (run s steps) pid)
+    \/ (refund_count s steps pid = 1 /\ unqueued (run s steps) pid).
+Proof. intros steps s pid R. exact (refund_exactly_once_hist steps s pid (reachable_inv _ R)). Qed.
+Print Assumptions refund_exactly_once_over_histories.
+
+(** non-vacuity of [queued] and of the ghosts: a pool of budget 1000 (1 per block), one farmer; two blocks are
+    released, the creator destroys the pool and is refunded 998: one refund event, 1000 = 0 + 2 + 998. *)
+Example c06_history_nonvacuous :
+  let bk : ledger := fold_left (fun l a => fold_left (fun l' d => credit l' a d 1000000) [0; 1; 2; 3] l) [0; 1; 2] [] in
+  let s1 := run (init bk 2) [Msg (CreatePool 0 0 2 true [(3, 1000, 1)]); NextBlock; Msg (Stake 1 1 0 2)] in
+  let steps := [NextBlock; NextBlock; Msg (Harvest 1 1); Msg (Destroy 0 1); NextBlock; Msg (Unstake 1 1 0 2)] in
+  queued s1 1 /\ Forall valid_step steps
+  /\ (refund_count s1 steps 1, released_so_far s1 steps 1 3, refunded_so_far s1 steps 1 3,
+      funded (pools (run s1 steps)) 1 3, remaining (pools (run s1 steps)) 1 3) = (1, 2, 998, 1000, 0).
+Proof.
+  cbv zeta. split; [|split].
+  - eexists. split; vm_compute; reflexivity.
+  - repeat constructor; discriminate.
+  - vm_compute. reflexivity.
+Qed.
+
+(** The decidable C06 step predicate the check evaluates on the IMPLEMENTATION's observations ([c06_step]: clauses
+    10-14 budgets rule by rule, 11 new pools, 15 every observed actor's balance, 16 the reward collector, 17 the
+    schedule) returns 0 on the MODEL's own observations at every step of every history. *)
+Theorem c06_checker_predicate_holds_on_the_model :
+  forall (s : state) (st : step) (oc0 : outcome) (rw0 : list (denom * Z)),
+    reachable s -> valid_step st -> (match st with Msg m => In (sender m) actors | NextBlock => True end) ->
+    c06_step (height s) (obs_of s oc0 rw0) st (obs_after s st) = 0.
+Proof. intros s st oc0 rw0 R. exact (model_passes_c06 s st oc0 rw0 (reachable_inv _ R)). Qed.
+Print Assumptions c06_checker_predicate_holds_on_the_model.
+
+(** The duration AdjustPool computes (availableHeight) is never negative (imported by the queues group). *)
+Theorem adjust_duration_is_nonnegative :
+  forall (s : state) (who : acct) (pid : Z) (add rpb : list (denom * Z)) (s' : state) (rw : list (denom * Z)),
+    reachable s -> adjust s who pid add rpb = Done s' rw ->
+    exists p p1 b1 iv,
+      let started := p_start p <=? height s in
+      let start_h := if started then height s else p_start p in
+      get pid (pools s) = Some p /\ update_pool (height s) (bank s) p 0 false = (p1, b1, true)
+      /\ min_interval (map (fun r => (adj_avail started (p_end p1 - start_h) add r, r_pb (adj_pb rpb r)))
+                           (map (adj_topup add) (p_rules p1))) = Some iv
+      /\ 0 <= iv
+      /\ exists p', get pid (pools s') = Some p' /\ p_end p' = start_h + iv.
+Proof. intros s who pid add rpb s' rw R. exact (adjust_duration_nonneg s who pid add rpb s' rw (reachable_inv _ R)). Qed.
+Print Assumptions adjust_duration_is_nonnegative.
 
 (** PRO RATA.  One farmer and one rule, over ANY list of events: [Accrue dr] (the per-share value
     grows by dr >= 0; the farmer's exact share, in units of 10^-18, grows by dr * stake) and
